@@ -57,6 +57,8 @@ type listCfg struct {
 	// PolSelf: the push policy consults the stack it guards (its current length and last element) before it
 	// answers: values of one Push call arrive "one value at a time", each judged against what is there by then
 	PolSelf bool `json:"push_policy_consults_own_stack,omitempty"`
+	// NilRun: all of the prefill but its first and last value is nil (a long run of nil elements between two values)
+	NilRun int `json:"prefill_is_a_run_of_nils,omitempty"` // 1: a value, then nils; 2: nils, then a value; 3: a value at either end
 }
 
 func (c listCfg) String() string {
@@ -81,6 +83,9 @@ func (c listCfg) String() string {
 	}
 	if c.PolSelf {
 		s += " policy-consults-own-stack"
+	}
+	if c.NilRun != 0 {
+		s += fmt.Sprintf(" nil-run/%d", c.NilRun)
 	}
 	return s
 }
@@ -165,6 +170,9 @@ func (c listCfg) build() *listInst {
 	if c.Prefill > 0 {
 		vals := make([]any, c.Prefill)
 		for i := range vals {
+			if c.NilRun != 0 && !(i == 0 && c.NilRun&1 != 0) && !(i == len(vals)-1 && c.NilRun&2 != 0) {
+				continue
+			}
 			vals[i] = in.fresh()
 		}
 		s.Push(vals...)
@@ -491,15 +499,15 @@ func c01Configs(c *Ctx) []listCfg {
 						if cp > 0 {
 							ml = cp + 1 // growth is attempted on a full stack too: the model drops the surplus
 						}
-						out = append(out, listCfg{k, fifo, cp, neg, fwd, ml, false, false, false, 0, "", false, false})
+						out = append(out, listCfg{k, fifo, cp, neg, fwd, ml, false, false, false, 0, "", false, false, 0})
 						if neg == fwd {
-							out = append(out, listCfg{k, fifo, cp, neg, fwd, ml, neg, false, true, 0, "", false, false})
+							out = append(out, listCfg{k, fifo, cp, neg, fwd, ml, neg, false, true, 0, "", false, false, 0})
 						}
 						if !neg && !fwd {
 							// the same histories through the locking paths and the push-policy path
-							out = append(out, listCfg{k, fifo, cp, neg, fwd, ml, true, false, false, 0, "", false, false}, listCfg{k, fifo, cp, neg, fwd, ml, true, true, false, 0, "", false, false})
+							out = append(out, listCfg{k, fifo, cp, neg, fwd, ml, true, false, false, 0, "", false, false, 0}, listCfg{k, fifo, cp, neg, fwd, ml, true, true, false, 0, "", false, false, 0})
 							if !c.Quick() {
-								out = append(out, listCfg{k, fifo, cp, neg, fwd, ml, false, true, false, 0, "", false, false})
+								out = append(out, listCfg{k, fifo, cp, neg, fwd, ml, false, true, false, 0, "", false, false, 0})
 							}
 						}
 					}
@@ -515,6 +523,15 @@ func c01Configs(c *Ctx) []listCfg {
 		}
 		out = append(out, listCfg{Kind: kindNames[i%5], FIFO: i%2 == 1, MaxL: n + 3, Prefill: n},
 			listCfg{Kind: kindNames[(i+2)%5], FIFO: i%2 == 0, Cap: n + 2, Neg: true, Fwd: true, MaxL: n + 3, Prefill: n, Mtx: i%2 == 0})
+	}
+	// ... and stacks that are mostly nil: a value, 47..128 nil elements, a value
+	for i, n := range []int{49, 51, 52, 53, 66, 130} {
+		if c.Quick() && i%2 == 1 && n != 53 {
+			continue
+		}
+		for run := 1; run <= 3; run++ {
+			out = append(out, listCfg{Kind: kindNames[(i+run)%5], FIFO: (i+run)%2 == 1, MaxL: n + 3, Prefill: n, NilRun: run})
+		}
 	}
 	// a push policy that turns some values away (a batch stops at the first one; an error stays on record
 	// until the next one replaces it)
@@ -545,7 +562,7 @@ func c01Configs(c *Ctx) []listCfg {
 	}
 	// capacities at the edge of int (the stored limit is k+1): the stack must simply never fill up
 	for _, cp := range []int{math.MaxInt, math.MaxInt - 1, 1 << 32, -1, -2, -7, math.MinInt} {
-		out = append(out, listCfg{"LIST", false, cp, false, false, 2, false, false, false, 0, "", false, false}, listCfg{"OR", true, cp, true, true, 2, false, true, false, 0, "", false, false})
+		out = append(out, listCfg{"LIST", false, cp, false, false, 2, false, false, false, 0, "", false, false, 0}, listCfg{"OR", true, cp, true, true, 2, false, true, false, 0, "", false, false, 0})
 	}
 	return out
 }
